@@ -707,7 +707,9 @@ def replay(ctx, obj):
 def search_failing_input(ctx, broken):
     """a broken C14 theorem: look for a concrete input on which the implementation violates the statement"""
     fix, mode, pc, pr = run_probe(ctx)
-    viol, st = evaluate(ctx, [pc] + gen_cases(ctx)[:30], fix, mode)
+    from harness.lib import py2coq_search
+    n = 400 if py2coq_search.is_code_obligation(broken) else 30   # code_<fn>_is_model: docs/py2coq.md
+    viol, st = evaluate(ctx, [pc] + gen_cases(ctx)[:n], fix, mode)
     for v in viol:
         if not v.get('no_input'):
             return dict(v['replay_obj'], what=v['what'])
